@@ -1,4 +1,5 @@
-"""thorough tier extras: second solver seed (brittleness), 32-bit usize pass, Kani harnesses"""
+"""thorough tier extras: second solver seed (brittleness), 32-bit usize pass, big-endian target pass, R1 cross-check"""
+import json
 def run(prop, pcfg, units, runs, seed, run_unit, Undecided):
     report = {}
     out = {'fails': [], 'undecided': [], 'obligations': [], 'report': report}
@@ -31,4 +32,13 @@ def run(prop, pcfg, units, runs, seed, run_unit, Undecided):
                 f['obligation'] = 'be-target:' + f['obligation']; f['unit'] = unit + '/be-target'; f['cmd'] = rbe.res['cmd']
                 out['fails'].append(f)
             out['obligations'] += ['be-target:' + o for o in rbe.obs if not o.startswith(('safety:', 'termination:'))]
+    # (4) rule R1 against rustc's own macro expansion of the current tree
+    if pcfg.get('r1_crosscheck'):
+        import r1_crosscheck
+        try: rc_ = r1_crosscheck.run()
+        except Exception as e: rc_ = {'status': 'unavailable', 'detail': str(e)[:300]}
+        report['r1_macro_expansion_vs_rustc'] = rc_
+        if rc_.get('status') == 'mismatch':
+            out['undecided'].append({'message': "the extractor's expansion of safe_from! differs from rustc's (-Zunpretty=expanded): %s" % json.dumps(rc_.get('functions'))[:600],
+                                     'fn': None, 'module': 'endian', 'kind': 'extraction'})
     return out
